@@ -212,7 +212,10 @@ theorem sim_tok {σ : RSt} {π : PSt} (cfg : Cfg) (env : TEnv) (hE : cfg.element
               have hd0 : σ.pop1.2.depth = 0 := by rw [pop1_depth]; omega
               refine ⟨(popPi σ π 1).setVar ("VAR_", c :: cs) σ.pop1.1, ?_, ?_⟩
               · simp [execPL_cons, execPS, assign1, eval_pop1kw cfg n h, assignTo, execPL, sigP]
-              · exact (rel_pop1 h).setProgVar hd0 (c :: cs) (by simp) _
+              · have hfu' : lookupKV (c :: cs) σ.pop1.2.funcs = Option.none := by
+                  have : σ.pop1.2.funcs = σ.funcs := by simp only [RSt.pop1]; split <;> rfl
+                  rw [this]; exact hfu
+                exact (rel_pop1 h).setProgVar hd0 (c :: cs) (by simp) _ hfu'
   all_goals simp at hf
 
 
@@ -295,7 +298,7 @@ theorem eval_iterable_pop {σ : RSt} {π : PSt} (cfg : Cfg) (n : Nat) (h : Rel e
 /-! ### whole programs -/
 
 theorem rel_init (flags : String) (inputs : List Val) : Rel env Option.none (initState flags inputs) (initPy flags inputs) := by
-  refine ⟨rfl, fun _ => rfl, ?_, rfl, rfl, rfl, rfl, rfl, rfl, rfl, rfl, rfl, rfl, ?_, ?_, ?_, rfl, ?_, ?_⟩
+  refine ⟨rfl, fun _ => rfl, ?_, rfl, rfl, rfl, rfl, rfl, rfl, rfl, rfl, rfl, rfl, ?_, ?_, ?_, rfl, ?_, ?_, ?_, ?_⟩
   · by_cases hH : flags.contains 'H' <;> simp [initPy, initState, PSt.getVar, lookupP, hH]
   · intro x hx hl _
     simp [initPy, initState, lookupP, lookupKV]
@@ -307,6 +310,8 @@ theorem rel_init (flags : String) (inputs : List Val) : Rel env Option.none (ini
     simp [this]
   · intro id rf hid; simp [initState] at hid
   · simp [initPy, PSt.getVar, lookupP]
+  · simp [initPy, lookupP]
+  · intro name ps body hf; simp [initState, lookupKV] at hf
 
 theorem pop1_printed (σ : RSt) : σ.pop1.2.printed = σ.printed := by
   simp only [RSt.pop1]; split <;> rfl
